@@ -79,12 +79,23 @@ func (s *FnSpec) props() map[string]bool {
 	return m
 }
 
+// onlyProp: every ensures clause of the contract is labelled with prop (so prop's own pass verified all of them)
+func (s *FnSpec) onlyProp(prop string) bool {
+	for _, c := range s.Ensures {
+		if !hasProp(c.Labels, prop) {
+			return false
+		}
+	}
+	return true
+}
+
 type IfaceSpec struct {
 	Iface    string // "amf0.Amf0"
 	Method   string
 	Requires []*Clause
 	Ensures  []*Clause
 	Assigns  []string
+	Pure     bool // the results are a function of the receiver (and its abstract state) and the arguments
 }
 
 type SharedDecl struct {
@@ -93,7 +104,23 @@ type SharedDecl struct {
 	Label string
 }
 
+// InterfDecl: `//@ interference <field>` on a spec function rely(old, new T) bool. The field may be changed by other
+// goroutines whenever this one is at a lock acquisition; every change (theirs and ours) satisfies rely.
+type InterfDecl struct {
+	Field string
+	Rely  *Clause
+}
+
+// AtInvoke: `//@ at-invoke <field>.<Method> <labels>` on a spec function over the owner object: it must hold just
+// before every call of <Method> through that interface-typed field.
+type AtInvoke struct {
+	What   string
+	Clause *Clause
+}
+
 type Contracts struct {
+	interf    []*InterfDecl
+	atInvoke  []*AtInvoke
 	byFn      map[*ssa.Function]*FnSpec
 	list      []*FnSpec
 	ifaces    map[string]*IfaceSpec
@@ -159,13 +186,16 @@ func (c *Contracts) errorf(format string, a ...interface{}) {
 	c.errs = append(c.errs, fmt.Sprintf(format, a...))
 }
 
-func directives(cg *ast.CommentGroup) []string {
+func directives(cg *ast.CommentGroup, contractFile bool) []string {
 	var out []string
 	if cg == nil {
 		return nil
 	}
 	for _, cm := range cg.List {
 		t := cm.Text
+		if contractFile && strings.HasPrefix(t, "// @") { // gofmt rewrites //@ to // @ in doc comments
+			t = "//@" + strings.TrimPrefix(t, "// @")
+		}
 		if strings.HasPrefix(t, "//@") {
 			out = append(out, strings.TrimSpace(strings.TrimPrefix(t, "//@")))
 		}
@@ -208,7 +238,7 @@ func (c *Contracts) parseFile(prog *ssa.Program, p *packages.Package, sp *ssa.Pa
 		}
 	}
 	for _, cg := range f.Comments {
-		ds := directives(cg)
+		ds := directives(cg, strings.HasSuffix(p.Fset.Position(f.Pos()).Filename, "verif_contracts.go"))
 		if len(ds) == 0 {
 			continue
 		}
@@ -399,12 +429,28 @@ func (c *Contracts) parseFile(prog *ssa.Program, p *packages.Package, sp *ssa.Pa
 					if cl := clause(splitLabels(fs[3:])); cl != nil {
 						is.Ensures = append(is.Ensures, cl)
 					}
+				case "pure":
+					is.Pure = true
 				case "assigns":
 					for _, a := range strings.Split(strings.Join(fs[3:], " "), ",") {
 						if a = strings.TrimSpace(a); a != "" && a != "nothing" {
 							is.Assigns = append(is.Assigns, a)
 						}
 					}
+				}
+			case "interference":
+				if !need(2) {
+					continue
+				}
+				if cl := clause(nil); cl != nil {
+					c.interf = append(c.interf, &InterfDecl{Field: fs[1], Rely: cl})
+				}
+			case "at-invoke":
+				if !need(3) {
+					continue
+				}
+				if cl := clause(splitLabels(fs[2:])); cl != nil {
+					c.atInvoke = append(c.atInvoke, &AtInvoke{What: fs[1], Clause: cl})
 				}
 			case "lock-chan":
 				if !need(2) {
